@@ -48,6 +48,14 @@ pub fn inputs(tier: Tier, corpus_dir: &str) -> serde_json::Value {
         s.max_len = if tier == Tier::Quick { 1 } else { 2 };
         words(&s, &mut arbitrary);
     }
+    // multi-line operands, blanks and terminators inside the expression scanners (positions of
+    // tokens emitted at a mark)
+    for mut s in crate::templates::t4_spaces(Tier::Quick) {
+        if ["%eval(", "%eval(1", "%if ", "%do i=1 %to ", "%scan(", "%sysfunc(f("].contains(&s.prefix.as_str()) {
+            s.max_len = 4;
+            words(&s, &mut arbitrary);
+        }
+    }
     for mut s in spaces::boundary_spaces(1) {
         s.max_len = 1;
         words(&s, &mut arbitrary);
